@@ -7,6 +7,9 @@
 //   loc getbig <prefix hex> <fill byte hex> <count> <suffix hex>
 //                              ->  like `loc get` for the string prefix + count x fill + suffix (count up to 2^32 + 100: the
 //                                  property says `strings of any length`; part lengths that do not fit an int show here)
+//   loc par <rounds>           ->  ok | MISMATCH …   four threads call get() at the same time, each with its own valid locale
+//                                  (or an unknown one), <rounds> times, and compare every answer with the one computed before
+//                                  the threads started: get() is a function of its argument, whoever else is calling it
 //   loc static <k>             ->  <hex of the k-th fixed string> => <what get returned for it when it was called DURING STATIC
 //                                  INITIALISATION of this translation unit>, `none` past the end.  This file precedes
 //                                  LocaleInfo.cpp on the link line, so its initialisers run first — the situation of an
@@ -28,7 +31,9 @@
 #include <cstdint>
 #include <cstdio>
 #include <cstdlib>
+#include <atomic>
 #include <cstring>
+#include <thread>
 #include <sys/wait.h>
 #include <unistd.h>
 #include <iostream>
@@ -184,6 +189,33 @@ static std::vector<std::string> runStatic() {
 }
 static const std::vector<std::string> staticResults = runStatic();
 
+static std::string runPar(long rounds) {
+    static const char *const inputs[] = {"en_GB.UTF-8", "cu_RU", "de_DE.UTF-8", "nb_NO", "hu_HU", "li_NL.UTF-8", "zz_ZZ", "Polish_Poland"};
+    constexpr int N = sizeof(inputs) / sizeof(inputs[0]);
+    std::vector<std::string> expected;
+    for (const char *s : inputs) expected.push_back(runGet(s));
+    std::atomic<long> bad{0};
+    std::atomic<int> firstBad{-1};
+    std::atomic<bool> go{false};
+    std::vector<std::thread> ts;
+    for (int t = 0; t < 4; ++t) ts.emplace_back([&, t] {
+        while (!go.load()) std::this_thread::yield();
+        for (long i = 0; i < rounds; ++i) {
+            int k = (t == 0) ? 0 : static_cast<int>((i + t) % N);         // one thread keeps asking for the same locale
+            LocaleInfo::Info info = LocaleInfo::get(inputs[k]);
+            std::string out = showPtr(info.languageCode) + " | ";
+            bool first = true;
+            for (const char *l : info.languages) { if (!first) out += ","; out += showPtr(l); first = false; }
+            out += " | " + showPtr(info.country) + " | " + showPtr(info.countryCode) + " | err:" + (info.error ? "1" : "0");
+            if (out != expected[static_cast<size_t>(k)]) { bad++; int e = -1; firstBad.compare_exchange_strong(e, k); }
+        }
+    });
+    go.store(true);
+    for (auto &t : ts) t.join();
+    if (bad.load() == 0) return "ok";
+    return "MISMATCH " + std::to_string(bad.load()) + " answers differ from the single-threaded answer, first for " + inputs[firstBad.load()];
+}
+
 static std::string showTable(const LocaleInfo::_info *t, int n) {
     std::string out;
     for (int i = 0; i < n; ++i) {
@@ -222,6 +254,8 @@ int main() {
                 if (parseHex(t[2], pre) && parseHex(t[3], fillS) && fillS.size() == 1 && fillS[0] != 0 && parseHex(t[5], suf)
                     && pre.find('\0') == std::string::npos && suf.find('\0') == std::string::npos)
                     out = runGetBig(pre, static_cast<unsigned char>(fillS[0]), std::strtoull(t[4].c_str(), nullptr, 10), suf);
+            } else if (t[1] == "par" && t.size() == 3) {
+                out = runPar(std::strtol(t[2].c_str(), nullptr, 10));
             } else if (t[1] == "static" && t.size() == 3) {
                 size_t k = std::strtoul(t[2].c_str(), nullptr, 10);
                 out = k < staticResults.size() ? staticResults[k] : "none";
